@@ -75,6 +75,7 @@ Record sstate := {
 Inductive note :=
 | NBoundary                                  (* sender and recipients are discarded (freedata) *)
 | NHelo                                      (* HELO / EHLO accepted *)
+| NEsmtp (e : bool)                          (* ... and which of the two it was: true = EHLO (stands right behind NHelo) *)
 | NMail (sender : bytes)                     (* MAIL FROM accepted *)
 | NRcpt (addr : bytes) (cls : rclass)        (* RCPT TO accepted *)
 | NWithdraw                                  (* second recipient of a bounce: all recipients accepted so far are withdrawn *)
@@ -539,7 +540,7 @@ Definition run_handler (f : nat) (o : oracles) (s : sstate) (l : bytes) (namelen
                    rcpts := rcpts s'; rcptcount := rcptcount s'; goodrcpt := goodrcpt s'; badcmds := badcmds s';
                    relayclient := relayclient s'; thisbytes := thisbytes s'; qcount := qcount s'; check2822 := check2822 s'; datatype := false; authname := authname s' |} in
       if o_helo o (skipn 5 l) then
-        ([Note NBoundary; Note NHelo; Reply 250], H0,
+        ([Note NBoundary; Note NHelo; Note (NEsmtp false); Reply 250], H0,
          {| rd := rd s'; comstate := comstate s'; esmtp := false; helostr := skipn 5 l; mailfrom := mailfrom s';
             rcpts := rcpts s'; rcptcount := rcptcount s'; goodrcpt := goodrcpt s'; badcmds := badcmds s';
             relayclient := relayclient s'; thisbytes := thisbytes s'; qcount := qcount s'; check2822 := check2822 s'; datatype := datatype s'; authname := authname s' |}, st)
@@ -547,7 +548,7 @@ Definition run_handler (f : nat) (o : oracles) (s : sstate) (l : bytes) (namelen
   | 4 => (* smtp_ehlo *)
       let s' := freedata s in
       if o_helo o (skipn 5 l) then
-        ([Note NBoundary; Note NHelo; Reply 250], H0,
+        ([Note NBoundary; Note NHelo; Note (NEsmtp true); Reply 250], H0,
          {| rd := rd s'; comstate := comstate s'; esmtp := true; helostr := skipn 5 l; mailfrom := mailfrom s';
             rcpts := rcpts s'; rcptcount := rcptcount s'; goodrcpt := goodrcpt s'; badcmds := badcmds s';
             relayclient := relayclient s'; thisbytes := thisbytes s'; qcount := qcount s'; check2822 := check2822 s'; datatype := datatype s'; authname := authname s' |}, st)
